@@ -219,13 +219,21 @@ fn run_ticket(case: &Case) -> Outcome {
                             let mut g = ok(m.lock());
                             let mut held = Held(&occ, false, &bad);
                             held.acquire();
+                            // (bit 31: keep the mutex first and notify at the end - waiters whose
+                            // time-out expires meanwhile sit in the re-lock, still queued)
+                            let before = op.2 & (1 << 31) != 0;
+                            if before {
+                                sleep_ns((op.2 & !(1 << 31)) as u64);
+                            }
                             *g += if op.0 == GRANT_ONE { 1 } else { op.1 as usize };
                             if op.0 == GRANT_ONE {
                                 cv.notify_one();
                             } else {
                                 cv.notify_all();
                             }
-                            sleep_ns(op.2 as u64);
+                            if !before {
+                                sleep_ns(op.2 as u64);
+                            }
                             drop(held);
                             drop(g);
                         }
@@ -468,7 +476,12 @@ pub fn strategy(g: &GenCfg) -> BoxedStrategy<Case> {
                 if dl > 0 {
                     ops.push(Op(SLEEP, dl, 0));
                 }
-                let hold = holds[i % holds.len()];
+                let mut hold = holds[i % holds.len()];
+                // half of the holding grants keep the mutex before they notify, for up to 3 ms
+                // (the waiters' time-outs are 1-3 ms)
+                if hold > 0 && delays[(i + 3) % delays.len()] % 2 == 0 {
+                    hold = (hold * 10) | (1 << 31);
+                }
                 if use_all && i + 1 == k {
                     ops.push(Op(GRANT_ALL, 1, hold));
                 } else {
